@@ -57,6 +57,13 @@ class API:
         self.classes[class_.id] = class_
 
     def add_function(self, function: Function) -> None:
+        previous_definition = self.functions.get(function.id)
+        if previous_definition is not None:
+            # A function that is defined again replaces the earlier definition, together with its parameters and results
+            for parameter in previous_definition.parameters:
+                self.parameters_.pop(parameter.id, None)
+            for result in previous_definition.results:
+                self.results.pop(result.id, None)
         self.functions[function.id] = function
 
     def add_enum(self, enum: Enum) -> None:
@@ -137,6 +144,8 @@ class Module:
         self.classes.append(class_)
 
     def add_function(self, function: Function) -> None:
+        # A later definition of the same name replaces the earlier one
+        self.global_functions = [function_ for function_ in self.global_functions if function_.id != function.id]
         self.global_functions.append(function)
 
     def add_enum(self, enum: Enum) -> None:
@@ -200,6 +209,8 @@ class Class:
         return "abc.ABC" in self.superclasses
 
     def add_method(self, method: Function) -> None:
+        # A later definition of the same name replaces the earlier one
+        self.methods = [method_ for method_ in self.methods if method_.id != method.id]
         self.methods.append(method)
 
     def add_class(self, class_: Class) -> None:
